@@ -66,6 +66,10 @@ pub struct QCase {
     /// the buffered sink, holding its lock
     #[serde(default)]
     pub sock_full: Vec<usize>,
+    /// metric strings get a long tail of multi-byte characters (a refused or queued metric is a
+    /// `String` somebody may slice or truncate)
+    #[serde(default)]
+    pub wide_strings: bool,
 }
 
 const SLOTS: usize = 3;
@@ -101,6 +105,7 @@ struct ProdEv {
 }
 
 struct Shared {
+    wide_strings: bool,
     ctl: Option<cadence_dsim::net::SockCtl>,
     log: Mutex<Vec<Ev>>,
     prod: Mutex<Vec<ProdEv>>,
@@ -266,6 +271,19 @@ fn stats3() -> (u64, u64, u64) {
     (a, b, kernel::steps())
 }
 
+/// The text of metric `id` emitted by task `me`: unique, optionally with a multi-byte tail whose
+/// character boundaries fall at varying byte offsets.
+fn metric_string(sh: &Shared, id: u32, me: usize) -> String {
+    let mut s = format!("m{id}.t{me}");
+    if sh.wide_strings {
+        s.push_str(&"x".repeat((id as usize * 7 + me) % 5));
+        for i in 0..(20 + (id as usize % 30)) {
+            s.push(if (i + id as usize) % 3 == 0 { '√' } else { 'é' });
+        }
+    }
+    s
+}
+
 fn any_gate_closed(sh: &Shared) -> bool {
     sh.gates.iter().any(|g| !g.is_open())
 }
@@ -294,7 +312,7 @@ fn run_prog(task_no: usize, ops: &[QOp], first: QueuingMetricSink, sh: &Arc<Shar
         match op {
             QOp::Emit { h, id } => {
                 if let Some(q) = slots.get(*h).and_then(|s| s.as_ref()) {
-                    let s = format!("m{id}.t{me}");
+                    let s = metric_string(sh, *id, me);
                     kernel::set_label(format!("emit {s}"));
                     let gc = any_gate_closed(sh);
                     let before = stats3();
@@ -324,7 +342,7 @@ fn run_prog(task_no: usize, ops: &[QOp], first: QueuingMetricSink, sh: &Arc<Shar
             QOp::Burst { h, first, n } => {
                 if let Some(q) = slots.get(*h).and_then(|s| s.as_ref()) {
                     for id in *first..*first + *n {
-                        let s = format!("m{id}.t{me}");
+                        let s = metric_string(sh, id, me);
                         kernel::set_label(format!("emit {s}"));
                         let gc = any_gate_closed(sh);
                         let before = stats3();
@@ -448,6 +466,7 @@ fn sim_main(case: QCase) -> Obs {
         None => (None, None),
     };
     let sh = Arc::new(Shared {
+        wide_strings: case.wide_strings,
         ctl,
         log: Mutex::new(Vec::new()),
         prod: Mutex::new(Vec::new()),
@@ -712,6 +731,15 @@ impl Engine for E3 {
         }
         // large queue: panic / stall on the first metrics, then a burst that must fit exactly
         let mut burst_plan: Vec<SinkOutcome> = Vec::new();
+        let mut backlog_burst = false;
+        if big_cap.is_none() && (cap.is_none() || cap == Some(8)) && matches!(focus, "C08" | "C11" | "C09" | "C15" | "C16") && cfg.chance(1, 40) {
+            // a long backlog behind a stalled worker (a worker that batches shows only here)
+            let n = 70 + cfg.below(80) as u32;
+            main_ops.push(QOp::Burst { h: 0, first: next_id, n });
+            next_id += n;
+            burst_plan = vec![if n_gates > 0 { SinkOutcome::Stall(0) } else { SinkOutcome::Slow(3) }];
+            backlog_burst = true;
+        }
         if let Some(bc) = big_cap {
             let n = bc as u32 + 2;
             main_ops.push(QOp::Burst { h: 0, first: next_id, n });
@@ -760,8 +788,10 @@ impl Engine for E3 {
                     plan[i] = o;
                 }
             }
-            for o in plan.iter_mut().skip(2) {
-                if !matches!(o, SinkOutcome::Ok | SinkOutcome::Err(_)) {
+            // behind the scene-setting outcomes: no further stalls, but panics and errors stay
+            let keep_from = if backlog_burst { 1 } else { 2 };
+            for o in plan.iter_mut().skip(keep_from) {
+                if matches!(o, SinkOutcome::Stall(_)) {
                     *o = SinkOutcome::Ok;
                 }
             }
@@ -778,7 +808,7 @@ impl Engine for E3 {
             _ => [35, 20, 20, 15, 10],
         };
         let sched = SchedSpec::generate(&mut sch, &weights);
-        QCase { sched, cap, via_builder, handler, plan, n_gates, main_ops, producers, sampler, observer, final_drop, wrapped_buffered, sock_full }
+        QCase { sched, cap, via_builder, handler, plan, n_gates, main_ops, producers, sampler, observer, final_drop, wrapped_buffered, sock_full, wide_strings: cfg.chance(1, 8) }
     }
 
     fn pin_schedule(case: &QCase, o: &Outcome) -> QCase {
@@ -882,6 +912,11 @@ impl Engine for E3 {
         if !case.sock_full.is_empty() {
             let mut c = case.clone();
             c.sock_full.clear();
+            v.push(c);
+        }
+        if case.wide_strings {
+            let mut c = case.clone();
+            c.wide_strings = false;
             v.push(c);
         }
         for s in case.sched.shrink() {
@@ -1117,6 +1152,30 @@ fn judge(case: &QCase, main: &Option<Obs>, end_tasks: &[TaskInfo], out: &mut Out
         }
     }
 
+    // the queue is what has been accepted and not yet handed to the wrapped sink: whatever the
+    // worker has taken off the channel but not yet handed over still counts (one entry may be in
+    // transit between the channel and the sink)
+    if let Some(cap) = case.cap {
+        let mut events: Vec<(u64, i32)> = Vec::new();
+        for c in obs.chan.iter().filter(|c| (c.op == "try_send" || c.op == "send") && c.ok && c.payload.starts_with("S:")) {
+            events.push((c.step, 1));
+        }
+        for e in &obs.log {
+            if let Ev::SinkEnter { step, .. } = e {
+                events.push((*step, -1));
+            }
+        }
+        events.sort();
+        let mut outstanding: i64 = 0;
+        for (step, d) in events {
+            outstanding += d as i64;
+            if outstanding > cap as i64 + 1 {
+                out.violate(&["C10"], "queue.capacity-exceeded", format!("at step {step} {outstanding} accepted metrics had not yet been handed to the wrapped sink; the capacity given to the constructor is {cap} (one more may be in transit)"));
+                break;
+            }
+        }
+    }
+
     // ---- blocked callers at the end ----
     for t in &obs.final_tasks {
         if !t.anon && t.id != 0 && t.name != "gatekeeper" {
@@ -1271,7 +1330,8 @@ fn judge(case: &QCase, main: &Option<Obs>, end_tasks: &[TaskInfo], out: &mut Out
             .collect();
         let on_wire = |text: &str, by_step: u64| -> usize {
             let needle = format!("{text}\n");
-            obs.ledger.iter().filter(|r| r.result.is_ok() && r.step <= by_step && find_sub(&r.payload, needle.as_bytes())).count()
+            // either as a terminated line inside a batch, or alone (a metric larger than the buffer)
+            obs.ledger.iter().filter(|r| r.result.is_ok() && r.step <= by_step && (find_sub(&r.payload, needle.as_bytes()) || r.payload == text.as_bytes())).count()
         };
         // flush barrier through the queuing handle
         for f in obs.prod.iter().filter(|e| e.what == "flush" && matches!(e.res, ApiRes::Unit)) {
